@@ -3,6 +3,7 @@ import hashlib
 import json
 import random
 import signal
+import sys
 import time
 
 
@@ -90,6 +91,10 @@ class Ctx:
         self.params = params or {}
         self.evaluations = 0
         self.counters = {}
+        if sys.flags.optimize:
+            # this shard runs in an interpreter started with -O / -OO: assert statements of the code under
+            # observation are compiled away there, as for a user who sets PYTHONOPTIMIZE
+            self.counters["shards_run_in_an_optimized_interpreter"] = 1
         self.sigs = set()
         self.samples = []
         self.violations = []
